@@ -175,8 +175,7 @@ CULPRITS = ["del_var_path", "var_path_assign", "map_keys", "map_values", "filter
 
 
 def classify(small, where, resp):
-    """Cause-oriented signature: <observable class>:<culprit construct of the minimal program>."""
-    kinds = fc.interesting_kinds(small)
+    """Cause-oriented signature: <observable class>:<root-cause family of the minimal program>."""
     outcome = ""
     try:
         outcome = next(iter(resp["runs"][0]["out"]))
@@ -187,16 +186,4 @@ def classify(small, where, resp):
     if where == "returns":
         return "type:returns_kind"
     cls = "state" if (where.startswith("snapshot") or where.startswith("final")) else "value"
-    if any(k in kinds for k in ("closure", "map_keys", "map_values", "filter", "for_each")):
-        # one family of root causes (upstream issue 13782: closure bodies are typed as if they ran
-        # exactly once, their `return` values and side effects do not reach the call's type; map_keys
-        # keeps the input's known keys): keyed by the observable class only
-        return "type:%s:closure" % cls
-    cul = [c for c in CULPRITS if c in kinds]
-    others = [k for k in kinds if k not in CULPRITS and not k.startswith("op")]
-    if "closure" in cul and len(cul) > 1:
-        cul.remove("closure")
-    if "return" in kinds and any(c in kinds for c in ("map_keys", "map_values", "filter", "for_each")) \
-            and cul and cul[0] in ("map_keys", "map_values", "filter", "for_each"):
-        return "type:%s:%s+closure_return" % (cls, cul[0])
-    return "type:%s:%s" % (cls, (cul + others)[0] if (cul + others) else "plain")
+    return "type:%s:%s" % (cls, fc.cause(small))
